@@ -35,6 +35,10 @@ func OASCheck(oas, cat *ON) *Violation {
 		return V("c17:not-object", "the OpenAPI document is not a JSON object")
 	}
 	if p := oas.DupKey(""); p != "" {
+		if strings.ContainsRune(p, '\uFFFD') {
+			// two names that differ only in bytes which are not valid UTF-8: encoding/json writes U+FFFD for each of them
+			return V("c17:duplicate-key:names-collide-after-utf8-replacement", "a key is emitted twice at %s", p)
+		}
 		return V("c17:duplicate-key", "a key is emitted twice at %s", p)
 	}
 	for _, k := range []string{"openapi", "info", "paths"} {
